@@ -127,6 +127,21 @@ def work(task):
                         acc.fail(case, f"NW={n} theta={ths[k][0]} point {i}: table gives {got!r}, "
                                        f"Gaussian log-density is {want!r}")
                         break
+            # stacked data of another real dtype (values -1,0,2 are exact in all of them): same table
+            if n <= 10 and start % 3 == 0:
+                for dt in (np.int64, np.float32, np.int32):
+                    acc.n += 1
+                    try:
+                        t2 = np.asarray(likelihood.all_points_all_clusters_log_likelihood(
+                            make_model([t for (_, t) in ths], means, W, K), X.astype(dt)), dtype=np.float64)
+                    except Exception as e:
+                        acc.fail(dict(case, x_dtype=str(np.dtype(dt))), f"{np.dtype(dt)} data: raised {type(e).__name__}: {e}")
+                        continue
+                    exact = np.array_equal(X.astype(dt).astype(np.float64), X)
+                    if exact and (t2.shape != table.shape or not np.allclose(t2, table, rtol=1e-12, atol=0, equal_nan=True)):
+                        i, k = np.argwhere(~np.isclose(t2, table, rtol=1e-12, atol=0))[0]
+                        acc.fail(dict(case, x_dtype=str(np.dtype(dt))),
+                                 f"{np.dtype(dt)} data: table entry ({i},{k}) is {t2[i, k]!r}, float64 data gives {table[i, k]!r}")
             # per-point function on the same (now refreshed) clusters
             if start % 2 == 0:
                 Nn = n // W
@@ -181,7 +196,7 @@ def run(ctx):
     ctx.cov["evaluations_jit"] = ctx.cov["evaluations"] - n_nojit
     # (b) end to end
     L = 20
-    menu = [("k2a", [L], 1), ("k2m1", [L], 0), ("k2mat", [L], 0), ("k2eps2", [L], 0)]
+    menu = [("k2a", [L], 1), ("k2m1", [L], 0), ("k2mat", [L], 0), ("k2eps2", [L], 0), ("k2e5", [L], 0)]
     if ctx.thorough:
         menu += [("k2b", [L], 1), ("k3a", [L], 1), ("k2w3", [L], 1), ("k2eps", [L], 0), ("k2vec", [L], 0)]
     ps = ml.e2_plans(ctx, menu, MONS, conform=False)
@@ -195,7 +210,7 @@ def run(ctx):
         "tridiagonal Toeplitz(2,-1), dense SPD cond 1e4} with s such that log det Theta in " + str(list(LOGDETS)) + " (|log det| <= 600 NW; dense "
         "in the subnormal-determinant band), K in {1,2,3}; NW<=3: every mean tuple x every point tuple over "
         "{-1,0,2}^NW, beyond: 3 fixed patterns; table function and per-point function, interpreted and JIT; "
-        "oracle = Cholesky log-density, tolerance 1e-10 x (|logdet| + quad + NW log 2pi), value must be finite. "
+        "oracle = Cholesky log-density, tolerance 1e-10 x (|logdet| + quad + NW log 2pi) + 32 NW cond(Theta) eps (1+quad) (the error any binary64 evaluation carries), value must be finite. "
         "(b) every round's table at the labelling step and the result's per-point values (as a multiset) on "
         "enumerated main-loop runs. non-trivial = entries whose |log det| > 745 (outside exp/log range); "
         "completed runs with >= 2 rounds")
